@@ -27,55 +27,60 @@ def run(chk):
     chk.trust("rand::thread_rng / RngCore::next_u64 return fresh uniformly distributed 64-bit draws from a thread-local generator (rand 0.8)")
     chk.trust("rustc MIR construction; std summaries")
     chk.assume("statistical independence of successive draws is a property of the rand crate")
-    for kind in ("dyn", "static"):
-        K = env.kinds[kind]
-        b = K.methods.get("random")
-        if b is None:
-            chk.refuted("C19.anchor", "anchor-missing: %s::random" % K.adt, "random() not found with default features")
-            continue
-        for n in range(0, nmax + 1):
-            key = "%s::random n=%d" % (K.adt, n)
-            try:
-                it = env.interp()
-                st = State()
-                outs = it.call_body(b, [usize(n)] if kind == "dyn" else [], st, K.env(n))
-                o, v, d = single_return(outs)
-                if o is not None:
-                    words = K.words(it, o.state, o.value)
-                    nv = K.num_vars_of(o.value)
-                    bits = bits_of_table(words, n)
-                    seen = {}
-                    v, d = PROVED, ""
-                    if len(words) != table_words(n) or (nv is not None and nv.val != n):
-                        v, d = REFUTED, "result has %d blocks / num_vars %s for n=%d" % (len(words), nv, n)
-                    for p, bt in enumerate(bits):
-                        if v != PROVED:
-                            break
-                        if p >= (1 << n):
+    # both build configurations: a draw placed inside a debug assertion disappears from release builds
+    for cfg in ("dbg", "rel"):
+        tag = "" if cfg == "dbg" else " [rel]"
+        if cfg != "dbg":
+            env = Env(F.load(cfg))
+        for kind in ("dyn", "static"):
+            K = env.kinds[kind]
+            b = K.methods.get("random")
+            if b is None:
+                chk.refuted("C19.anchor", "anchor-missing: %s::random%s" % (K.adt, tag), "random() not found with default features")
+                continue
+            for n in range(0, nmax + 1):
+                key = "%s::random n=%d%s" % (K.adt, n, tag)
+                try:
+                    it = env.interp()
+                    st = State()
+                    outs = it.call_body(b, [usize(n)] if kind == "dyn" else [], st, K.env(n))
+                    o, v, d = single_return(outs)
+                    if o is not None:
+                        words = K.words(it, o.state, o.value)
+                        nv = K.num_vars_of(o.value)
+                        bits = bits_of_table(words, n)
+                        seen = {}
+                        v, d = PROVED, ""
+                        if len(words) != table_words(n) or (nv is not None and nv.val != n):
+                            v, d = REFUTED, "result has %d blocks / num_vars %s for n=%d" % (len(words), nv, n)
+                        for p, bt in enumerate(bits):
+                            if v != PROVED:
+                                break
+                            if p >= (1 << n):
+                                if bt is None:
+                                    v, d = UNDECIDED, "unused bit %d is top" % p
+                                elif bt != ZERO:
+                                    v, d = REFUTED, "bit %d (>= 2^%d) of the random table can be set (%s)" % (p, n, B.describe(bt))
+                                continue
                             if bt is None:
-                                v, d = UNDECIDED, "unused bit %d is top" % p
-                            elif bt != ZERO:
-                                v, d = REFUTED, "bit %d (>= 2^%d) of the random table can be set (%s)" % (p, n, B.describe(bt))
-                            continue
-                        if bt is None:
-                            v, d = UNDECIDED, "bit %d is top" % p
-                        elif not bt[0]:
-                            v, d = REFUTED, "bit %d of the random table is the constant %d" % (p, bt[1])
-                        elif len(bt[0]) != 1 or not B.ATOMS.name(bt[0][0]).startswith("rng"):
-                            v, d = UNDECIDED, "bit %d is not a plain copy of a generator bit: %s" % (p, B.describe(bt))
-                        else:
-                            a = bt[0][0]
-                            if a in seen:
-                                v, d = REFUTED, "bits %d and %d of the random table are the same generator bit %s (shared draw)" % (seen[a], p, B.ATOMS.name(a))
-                            seen[a] = p
-                    if v == PROVED and getattr(it, "rng_sources", 0) < 1:
-                        v, d = UNDECIDED, "generator handle not obtained from rand::thread_rng"
-                    if v == PROVED and it.rng_calls < table_words(n):
-                        v, d = REFUTED, "%d draws for %d words" % (it.rng_calls, table_words(n))
-            except Undecided as e:
-                v, d = UNDECIDED, e.cause
-            chk.add("C19.provenance", key, v, d, where=where_of(b),
-                    sample=dict(obligation=key, draws=it.rng_calls, verdict=v) if n in (3, 8) else None)
+                                v, d = UNDECIDED, "bit %d is top" % p
+                            elif not bt[0]:
+                                v, d = REFUTED, "bit %d of the random table is the constant %d" % (p, bt[1])
+                            elif len(bt[0]) != 1 or not B.ATOMS.name(bt[0][0]).startswith("rng"):
+                                v, d = UNDECIDED, "bit %d is not a plain copy of a generator bit: %s" % (p, B.describe(bt))
+                            else:
+                                a = bt[0][0]
+                                if a in seen:
+                                    v, d = REFUTED, "bits %d and %d of the random table are the same generator bit %s (shared draw)" % (seen[a], p, B.ATOMS.name(a))
+                                seen[a] = p
+                        if v == PROVED and getattr(it, "rng_sources", 0) < 1:
+                            v, d = UNDECIDED, "generator handle not obtained from rand::thread_rng"
+                        if v == PROVED and it.rng_calls < table_words(n):
+                            v, d = REFUTED, "%d draws for %d words" % (it.rng_calls, table_words(n))
+                except Undecided as e:
+                    v, d = UNDECIDED, e.cause
+                chk.add("C19.provenance", key, v, d, where=where_of(b),
+                        sample=dict(obligation=key, draws=it.rng_calls, verdict=v) if n in (3, 8) else None)
     seed_rule(chk, facts)
     ns = len(facts.raw["statics"])
     chk.add("C19.no-static", "no static item in the crate", PROVED if ns == 0 else UNDECIDED, "%d statics" % ns)
